@@ -211,14 +211,16 @@ RegHas(reg, oid) == \E i \in DOMAIN reg : reg[i][1] = oid
 RegGet(reg, oid) == reg[CHOOSE i \in DOMAIN reg : reg[i][1] = oid][2]
 
 \* Representer.__sweeten order: bases that have a representer first
-RECURSIVE SweChain(_)
+\* (a base reached along two paths is sweetened once, where reached first)
+RECURSIVE SweChainRaw(_)
 RECURSIVE SweChainBases(_, _)
 SweChainBases(bs, i) ==
     IF i > Len(bs) THEN <<>>
-    ELSE (IF bs[i] \in ClassNames /\ IsReg(bs[i]) THEN SweChain(bs[i]) ELSE <<>>)
+    ELSE (IF bs[i] \in ClassNames /\ IsReg(bs[i]) THEN SweChainRaw(bs[i]) ELSE <<>>)
          \o SweChainBases(bs, i + 1)
-SweChain(cname) ==
+SweChainRaw(cname) ==
     SweChainBases(Cls(cname).bases, 1) \o (IF Cls(cname).hasswe THEN <<cname>> ELSE <<>>)
+SweChain(cname) == FirstOccurrences(SweChainRaw(cname))
 
 \* Node.remove_attributes_with_default_values, as the code does it:
 \* compare the node text with the default by the NODE's tag
